@@ -13,6 +13,7 @@ CONSTANTS
   DPM = 2
   Backends <- FileEs
   Faults <- NoFault
+  StoreOnce = TRUE
   Ops <- RecOps
   Mismatch = FALSE
   NameFilterSound = FALSE
@@ -32,5 +33,4 @@ PROPERTY PropListComplete
 PROPERTY PropDeleteExact
 PROPERTY PropReadOnly
 PROPERTY PropListAccept
-ACTION_CONSTRAINT OnlyIntoEmpty
 CHECK_DEADLOCK FALSE
